@@ -7,7 +7,8 @@
    NOT proved (see notes/design/C02.md): agent_refines (simulation of Base/Agent.v), helper_abort_sound
    as a separate statement (its content is inside the invariant behind C02_no_lost_wakeup). *)
 From Coq Require Import List NArith.
-From Pika Require Import Base.Conc Gen.GenEnums Model.Sched Proofs.SchedProofs Proofs.SchedWakeProofs.
+From Pika Require Import Base.Conc Gen.GenEnums Model.Sched Proofs.SchedProofs Proofs.SchedWakeProofs
+  Proofs.SchedRecycleProofs.
 Import ListNotations.
 
 (* reachable /\ stuck (nothing can move any more; the pool has at least one worker) => no task is
@@ -75,6 +76,6 @@ Example C02_example_woken :
 Proof.
   split; [|vm_compute; split; reflexivity].
   rewrite (surjective_pairing (sched_run nv_sched nv_ext)).
-  apply stuck_intro; [vm_compute; reflexivity | vm_compute; reflexivity |].
+  apply stuck_intro; [vm_compute; reflexivity | vm_compute; reflexivity | vm_compute; reflexivity |].
   intros a. destruct a as [|[|[|a]]]; vm_compute; auto.
 Qed.
